@@ -116,6 +116,12 @@ def run(prog: Program, L: Ledger) -> None:
                 base = t.value if isinstance(t, ast.Subscript) else None
                 if base is not None and norm(base) in [f"{a}.positions" for a in live] + [f"{a}.arrays['positions']" for a in live] + [f"{a}.arrays['momenta']" for a in live]:
                     n_scan += 1
+                    sl = t.slice
+                    whole = isinstance(sl, ast.Slice) and sl.lower is None and sl.upper is None and sl.step is None
+                    rhs = norm(n.value) if isinstance(n, ast.Assign) else ""
+                    if whole and isinstance(n, ast.Assign) and (rhs.startswith("old_") or ".last_" in rhs or rhs.startswith("self.last_")):
+                        L.ok("K1", f"{fi.qualname}:restore-whole-array", f"{fi.module.relpath}:{n.lineno}")
+                        continue
                     L.violation("K1", f"{fi.qualname}:raw-subscript", f"{fi.module.relpath}:{n.lineno}", f"`{norm(n)[:80]}` writes part of the live array in place", "constrained atoms move", norm(n)[:100])
                 if isinstance(n, ast.AugAssign) and norm(t) in [f"{a}.positions" for a in live]:
                     n_scan += 1
